@@ -1,6 +1,8 @@
 package main
 
 import (
+	"fmt"
+	"os"
 	"go/ast"
 	"go/token"
 	"go/types"
@@ -81,6 +83,9 @@ func (c *Ctx) CondFacts(body *ast.BlockStmt, info *types.Info, extra func(n ast.
 // given way (match receives the condition and the truth value it is known to have).
 func (cf *CondFacts) HoldsAt(n ast.Node, match func(cond ast.Expr, truth bool) bool) bool {
 	fs, ok := cf.res.At(n)
+	if os.Getenv("CTYLINT_DEBUG_CF") != "" {
+		fmt.Fprintf(os.Stderr, "HoldsAt %s located=%v facts=%s\n", cf.g.ctx.PosStr(n.Pos()), ok, fs)
+	}
 	if !ok {
 		return false
 	}
